@@ -60,7 +60,7 @@ for name, group, what, old, new in EDITS:
             rep = json.load(open(f))
         except Exception:
             pass
-    refused = re.findall(r'py2v_uc: REFUSED [^\\\n\']*', out + str(rep.get('broken', '')))
+    refused = re.findall(r'(?:py2v_uc: REFUSED|translator rejected) [^\\\n\']*', out + str(rep.get('broken', '')))
     out2 = out
     if p.returncode and not refused:
         q = subprocess.run('ulimit -v 8000000; timeout 300 coqc -Q . BiomV Gen/UcGen.v && timeout 300 coqc -Q . BiomV '
